@@ -179,14 +179,14 @@ def tree_scenarios(tier):
     n = 200000 if tier == "quick" else 3000000
     orders = ["asc", "desc", "zigzag", "random"]
     actions = ["drop", "clear", "iter_front_partial", "iter_back_partial", "iter_all", "iter_all_back", "query", "set_drop", "remove_all",
-               "iter_nth_past_end", "iter_nth_back_past_end", "iter_nth_mid_drop", "iter_skip_all", "iter_step_by", "iter_last_fold", "set_iter_nth"]
+               "iter_nth_past_end", "iter_nth_back_past_end", "iter_nth_mid_drop", "iter_skip_all", "iter_step_by", "iter_last_fold", "set_iter_nth", "minmax"]
     for o in orders:
         for a in actions:
-            if tier == "quick" and o in ("zigzag", "random") and a not in ("drop", "iter_front_partial"):
+            if tier == "quick" and o in ("zigzag", "random") and a not in ("drop", "iter_front_partial", "minmax"):
                 continue
             sc.append(("tree:%s:%s" % (o, a), n, 8192))
     if tier == "thorough":
-        for a in ("drop", "clear", "iter_front_partial", "iter_back_partial", "iter_nth_past_end", "iter_nth_back_past_end", "iter_skip_all", "set_iter_nth"):
+        for a in ("drop", "clear", "iter_front_partial", "iter_back_partial", "iter_nth_past_end", "iter_nth_back_past_end", "iter_skip_all", "set_iter_nth", "minmax"):
             sc.append(("tree:asc:%s" % a, 3000000, 2048))
             sc.append(("tree:desc:%s" % a, 3000000, 2048))
     return sc
